@@ -309,16 +309,53 @@ def imagesLoads := loadsWith imagesFill imagesChecks
 
 /-! ### discinfo (document = the stripped lines) -/
 
-/-- `float(s)` succeeds?  plain decimal notation only; anything else is outside the model -/
+/-- `digit (["_"] digit)*` : the rest after the longest such prefix, `none` if there is no digit at the start -/
+def digitPart : Str → Option Str
+  | c :: rest =>
+    if Str.isAsciiDigit c then
+      let rec go : Str → Str
+        | d :: r => if Str.isAsciiDigit d then go r
+                    else if d == '_' then (match r with
+                      | d2 :: r2 => if Str.isAsciiDigit d2 then go r2 else d :: r
+                      | [] => d :: r)
+                    else d :: r
+        | [] => []
+      some (go rest)
+    else none
+  | [] => none
+
+/-- CPython's float literal grammar (ASCII): `[sign] (digitpart ["." [digitpart]] | "." digitpart) [("e"|"E") [sign] digitpart]` -/
+def floatSyntaxOk (body : Str) : Bool :=
+  let afterMantissa : Option Str :=
+    match digitPart body with
+    | some r => (match r with
+        | '.' :: r2 => (match digitPart r2 with | some r3 => some r3 | none => some r2)
+        | _ => some r)
+    | none => (match body with
+        | '.' :: r2 => digitPart r2
+        | _ => none)
+  match afterMantissa with
+  | none => false
+  | some [] => true
+  | some (e :: r) =>
+    if e == 'e' || e == 'E' then
+      let r' := match r with | '+' :: t => t | '-' :: t => t | t => t
+      digitPart r' == some []
+    else false
+
+/-- `float(s)`: a syntax error is ValueError (exact, CPython's grammar for ASCII input); the VALUE is modelled for plain decimal
+notation only (`Err.other` for exponents, underscores, inf/nan, non-ASCII digits) -/
 def floatOk (s : Str) : Except Err Str :=
   let t := strip s
   let body := match t with | '-' :: r => r | '+' :: r => r | r => r
-  match Str.splitOn '.' body with
-  | [a] => if !a.isEmpty && a.all Str.isAsciiDigit then .ok (t ++ c!".0") else if a.any Str.isAsciiDigit then .error .other else
-      (if a == c!"inf" || a == c!"nan" || a == c!"infinity" then .error .other else .error .valueError)
-  | [a, b] => if a.all Str.isAsciiDigit && b.all Str.isAsciiDigit && !(a.isEmpty && b.isEmpty) then .ok t else
-      (if body.any Str.isAsciiDigit then .error .other else .error .valueError)
-  | _ => if body.any Str.isAsciiDigit then .error .other else .error .valueError
+  let low := Str.lowerAscii body
+  if low == c!"inf" || low == c!"nan" || low == c!"infinity" then .error .other
+  else if body.any (fun c => c.toNat ≥ 128) then .error .other
+  else if !floatSyntaxOk body then .error .valueError
+  else match Str.splitOn '.' body with
+    | [a] => if a.all Str.isAsciiDigit then .ok (t ++ c!".0") else .error .other
+    | [a, b] => if a.all Str.isAsciiDigit && b.all Str.isAsciiDigit && !a.isEmpty && !b.isEmpty then .ok t else .error .other
+    | _ => .error .other
 
 def isZeroFloat (s : Str) : Bool := s.all fun c => c == '0' || c == '.' || c == '-' || c == '+'
 
